@@ -79,12 +79,17 @@ theorem uncached_holds_nothing (env : Env) (lt : Node → Node → Prop) (ho : S
   C08.uncached_holds_nothing env lt ho hr ops m hc
 
 /-- **…and are re-executed on every call**: a call of an uncached cells always reaches the
-formula evaluator, whatever the cache holds; its arguments are never looked up.  (`ha`: the
-cells exists – the name of a deleted cells is not bound, the call fails in the caller.) -/
+formula evaluator, whatever the cache holds; its arguments are never looked up.  (`keepExc`: when
+the call returns, the caller's exception identity is what it was – bookkeeping of C17 that no value,
+graph or cache field depends on.  `ha`: the cells exists – the name of a deleted cells is not
+bound, the call fails in the caller.) -/
 theorem uncached_always_executes (env : Env) (ef : Node → St → Res × St) (n : Node) (s : St)
-    (ha : env.alive n.1 = true)
-    (hc : env.cached n.1 = false) : evalNode env ef n s = ef n s := by
-  unfold evalNode; simp [ha, hc]
+    (ha : env.alive n.1 = true) (hc : env.cached n.1 = false) :
+    evalNode env ef n s = keepExc s (ef n s) ∧ (evalNode env ef n s).1 = (ef n s).1 ∧
+    (evalNode env ef n s).2.data = (ef n s).2.data ∧ (evalNode env ef n s).2.log = (ef n s).2.log := by
+  have : evalNode env ef n s = keepExc s (ef n s) := by unfold evalNode; simp [ha, hc]
+  rw [this]
+  exact ⟨rfl, keepExc_fst s _, (keepExc_excOnly s _).data, (keepExc_excOnly s _).log⟩
 
 /-! ### The hypothesis `None is allowed everywhere` is needed: a known finding
 
